@@ -70,13 +70,15 @@ func subscribe(c *C04Case, h interface {
 	}
 }
 
-var tricky = []string{"10=", "10=123", "|10=000|", "x10=", "=10=", "110=5", "10", "1", "10=0\x0010=1"}
+var tricky = []string{"10=", "10=123", "|10=000|", "x10=", "=10=", "110=5", "10", "1", "10=0\x0010=1",
+	// the other boundary: the text that opens a message (BeginString, BodyLength), quoted in a value or continuing a longer tag
+	"FIX.4.4", "FIXBROKER", "8=FIX.4.4", "cannot parse 8=FIX.4.4 9=1x", "x8=FIX", "9=12", "FIX"}
 
 func genWireMsg(t *rapid.T, id string) []byte {
 	nf := rapid.IntRange(0, 6).Draw(t, "nFields")
 	toks := []ref.Tok{rig.F("11", id)}
 	for i := 0; i < nf; i++ {
-		tag := rapid.SampledFrom([]string{"58", "110", "210", "1010", "100", "55", "1", "101", "9910"}).Draw(t, "tag")
+		tag := rapid.SampledFrom([]string{"58", "110", "210", "1010", "100", "55", "1", "101", "9910", "448", "48", "148", "109", "19"}).Draw(t, "tag")
 		var val string
 		switch rapid.IntRange(0, 9).Draw(t, "valKind") {
 		case 0, 1, 2, 3:
